@@ -39,7 +39,8 @@ type faultPlan struct {
 	Nth  int    `json:"nth"`  // the nth matching call while the operation runs
 }
 
-// strata that are always part of a run (the final write of a table inside a flush and inside a compaction) ...
+// strata that are always part of a run (the final write of a table inside a flush and inside a compaction,
+// a manifest record cut half-way, a reopen that cannot write its new manifest) ...
 var fixedStrata = []faultPlan{
 	{"flush", "table-close-partial", 1},
 	{"compact", "table-close-partial", 1},
@@ -47,6 +48,11 @@ var fixedStrata = []faultPlan{
 	{"compact", "table-close-empty", 1},
 	{"compact", "table-close-partial", 2},
 	{"flush", "table-close-full", 1},
+	// the strata in which the unchanged tree once failed (fixes d4b4601, 9cf76a6): every seed keeps them armed
+	{"flush", "manifest-sync-partial", 1},
+	{"reopen", "manifest-create", 1},
+	{"compact", "manifest-sync-partial", 1},
+	{"reopen", "manifest-write", 1},
 }
 
 // ... and the strata the remaining iofault histories rotate through (offset by the seed)
